@@ -232,6 +232,7 @@ package oauth2
 //@   ensures [C18.reuse-error-class] err != nil ==> ekind(err) == "invalid_request" || ekind(err) == "server_error"
 
 //@ func (*RefreshTokenGrantHandler).HandleTokenEndpointRequest
+//@   assert @call(ValidateRefreshToken)#1 [C07.refresh-checks-the-stored-expiry] $arg2 == ref_req[c.RefreshTokenStrategy.RefreshTokenSignature(ctx, refresh)] && $arg3 == refresh
 //@   assert @call(handleRefreshTokenReuse)#1 [C20.storage-keys-are-signatures] $arg2 == c.RefreshTokenStrategy.RefreshTokenSignature(ctx, refresh)
 //@   assert @call(GetRefreshTokenSession)#1 [C20.storage-keys-are-signatures] $arg2 == c.RefreshTokenStrategy.RefreshTokenSignature(ctx, refresh)
 //@   modifies anyheap
@@ -318,6 +319,7 @@ package oauth2
 //@ func (*HMACSHAStrategyUnPrefixed).ValidateAuthorizeCode
 //@   requires h != nil && r != nil && h.Enigma != nil
 //@   ensures [C07.authorize-code-expiry] err == nil ==> $now >= old($now) && !expired_at(r.GetSession().GetExpiresAt(fosite.AuthorizeCode), r.GetRequestedAt(), h.Config.GetAuthorizeCodeLifespan(ctx), $now)
+//@   ensures [C02.code-expires-as-recorded] err == nil ==> $now >= old($now) && !expired_at(r.GetSession().GetExpiresAt(fosite.AuthorizeCode), r.GetRequestedAt(), h.Config.GetAuthorizeCodeLifespan(ctx), $now)
 //@   ensures [C06.authorize-code-authentic] err == nil ==> authentic(h.Enigma, token)
 
 // Refresh tokens: only a session-provided expiry limits them (lifespan -1 = unlimited leaves it unset).
@@ -361,6 +363,7 @@ package oauth2
 //@ func (*HMACSHAStrategy).ValidateAuthorizeCode
 //@   requires h != nil && r != nil && h.HMACSHAStrategyUnPrefixed != nil && h.HMACSHAStrategyUnPrefixed.Enigma != nil
 //@   ensures [C07.authorize-code-expiry] err == nil ==> $now >= old($now) && !expired_at(r.GetSession().GetExpiresAt(fosite.AuthorizeCode), r.GetRequestedAt(), h.HMACSHAStrategyUnPrefixed.Config.GetAuthorizeCodeLifespan(ctx), $now)
+//@   ensures [C02.code-expires-as-recorded] err == nil ==> $now >= old($now) && !expired_at(r.GetSession().GetExpiresAt(fosite.AuthorizeCode), r.GetRequestedAt(), h.HMACSHAStrategyUnPrefixed.Config.GetAuthorizeCodeLifespan(ctx), $now)
 //@   ensures [C06.authorize-code-authentic] err == nil ==> authentic(h.HMACSHAStrategyUnPrefixed.Enigma, strings.TrimPrefix(token, h.getPrefix("ac")))
 //@ func (*HMACSHAStrategy).ValidateRefreshToken
 //@   requires h != nil && r != nil && h.HMACSHAStrategyUnPrefixed != nil && h.HMACSHAStrategyUnPrefixed.Enigma != nil
@@ -402,6 +405,7 @@ package oauth2
 
 //@ func (*CoreValidator).introspectAccessToken
 //@   let sig = c.CoreStrategy.AccessTokenSignature(ctx, token)
+//@   assert @call(ValidateAccessToken)#1 [C07.introspection-checks-the-stored-expiry] $arg2 == acc_req[sig] && $arg3 == token
 //@   requires c != nil && accessRequest != nil && !stored[accessRequest] && !shared[accessRequest]
 //@   protects [C19.no-write-to-store-owned-session] shared
 //@   modifies faults, validated_n, accessRequest.GetID(), accessRequest.GetRequestedAt(), accessRequest.GetClient(), accessRequest.GetSession(), accessRequest.GetRequestedScopes(), accessRequest.GetGrantedScopes(), accessRequest.GetRequestedAudience(), accessRequest.GetGrantedAudience(), accessRequest.GetRequestForm()
@@ -413,6 +417,7 @@ package oauth2
 
 //@ func (*CoreValidator).introspectRefreshToken
 //@   let sig = c.CoreStrategy.RefreshTokenSignature(ctx, token)
+//@   assert @call(ValidateRefreshToken)#1 [C07.introspection-checks-the-stored-expiry] $arg2 == ref_req[sig] && $arg3 == token
 //@   requires c != nil && accessRequest != nil && !stored[accessRequest] && !shared[accessRequest]
 //@   protects [C19.no-write-to-store-owned-session] shared
 //@   modifies faults, validated_n, accessRequest.GetID(), accessRequest.GetRequestedAt(), accessRequest.GetClient(), accessRequest.GetSession(), accessRequest.GetRequestedScopes(), accessRequest.GetGrantedScopes(), accessRequest.GetRequestedAudience(), accessRequest.GetGrantedAudience(), accessRequest.GetRequestForm()
@@ -513,6 +518,40 @@ package oauth2
 //@   ensures [C20.password-never-kept-in-the-request] err == nil ==> !("password" in request.GetRequestForm())
 //@   ensures [C07.password-grant-expiry] err == nil ==> 2 * (request.GetSession().GetExpiresAt(fosite.AccessToken) - ($now + life)) <= 1000000000 && 2 * ((old($now) + life) - request.GetSession().GetExpiresAt(fosite.AccessToken)) <= 1000000000
 //@   invariant loop#1 [C12.password-grant-scope-confined] $i <= len(request.GetRequestedScopes()) && (forall j int :: 0 <= j && j < $i ==> call(c.Config.GetScopeStrategy(ctx), request.GetClient().GetScopes(), request.GetRequestedScopes()[j]))
+
+// ---------------------------------------------------------------- C06 / C07: JWT access tokens
+// validate: a JWT is accepted only if the signer decoded it (signature verification is go-jose's, trusted) and its claims
+// are inside their time window (exp not passed, iat/nbf not in the future) at the time of the call.
+// toRFCErr: the error class of a refused JWT (malformed < bad signature < expired < other claim).
+//@ func toRFCErr
+//@   ensures v == nil ==> result == nil
+//@   ensures [C07.jwt-expired-class] v != nil && !v.Has(1) && !v.Has(6) && v.Has(16) ==> result == fosite.ErrTokenExpired
+//@   ensures [C06.jwt-signature-class] v != nil && !v.Has(1) && v.Has(6) ==> result == fosite.ErrTokenSignatureMismatch
+//@   ensures v != nil ==> result != nil
+//@ func validate
+//@   let now = call(jwt.TimeFunc).Unix()
+//@   let m = decoded(jwtStrategy, token).Claims
+//@   requires jwtStrategy != nil
+//@   ensures [C06.jwt-accepted-only-if-decoded] err == nil ==> decode_err(jwtStrategy, token) == nil && t == decoded(jwtStrategy, token) && t != nil
+//@   ensures [C07.jwt-access-token-window] err == nil ==> (num_ok(m["exp"]) && num_val(m["exp"]) != 0 ==> now <= num_val(m["exp"])) && (num_ok(m["iat"]) && num_val(m["iat"]) != 0 ==> now >= num_val(m["iat"])) && (num_ok(m["nbf"]) && num_val(m["nbf"]) != 0 ==> now >= num_val(m["nbf"]))
+//@ func (*DefaultJWTStrategy).ValidateAccessToken
+//@   let now = call(jwt.TimeFunc).Unix()
+//@   let m = decoded(h.Signer, token).Claims
+//@   requires h != nil && h.Signer != nil
+//@   ensures [C06.jwt-accepted-only-if-decoded] result == nil ==> decode_err(h.Signer, token) == nil
+//@   ensures [C07.jwt-access-token-window] result == nil ==> (num_ok(m["exp"]) && num_val(m["exp"]) != 0 ==> now <= num_val(m["exp"])) && (num_ok(m["iat"]) && num_val(m["iat"]) != 0 ==> now >= num_val(m["iat"])) && (num_ok(m["nbf"]) && num_val(m["nbf"]) != 0 ==> now >= num_val(m["nbf"]))
+
+// Stateless JWT introspection: a token is reported active only if the signer decoded it and its claims are inside their time
+// window now. (Which claims make a JWT an ACCESS token is not checked by the code - the TODO in IntrospectToken - so "any JWT
+// signed by the key is reported as an access token" is outside this clause and outside what the check claims.)
+//@ func (*StatelessJWTValidator).IntrospectToken
+//@   let now = call(jwt.TimeFunc).Unix()
+//@   let m = decoded(v.Signer, token).Claims
+//@   requires v != nil && v.Signer != nil && accessRequest != nil
+//@   modifies everything
+//@   ensures [C09.stateless-active-only-if-valid] result1 == nil ==> result0 == fosite.AccessToken && old(decode_err(v.Signer, token)) == nil
+//@   ensures [C07.stateless-introspection-window] result1 == nil ==> old((num_ok(m["exp"]) && num_val(m["exp"]) != 0 ==> now <= num_val(m["exp"])) && (num_ok(m["nbf"]) && num_val(m["nbf"]) != 0 ==> now >= num_val(m["nbf"])))
+//@   ensures [C09.stateless-refusal-names-no-kind] result1 != nil && old(decode_err(v.Signer, token)) != nil ==> result0 == ""
 
 // ---------------------------------------------------------------- the issuing step of the grants without a code
 // IssueAccessToken (client credentials, password, JWT bearer): exactly one access token is stored, under the request's own id.
